@@ -710,12 +710,40 @@ impl World for C15 {
                     if b - a != c - b || b - a == 0 {
                         o.violate("tick-count-not-linear", "ticks-linear", format!("ticks for bounds 10,11,12: {a},{b},{c}"));
                     }
+                    // Every kind of loop counts its iterations: one more iteration costs a constant,
+                    // non-zero number of ticks, whatever is iterated and wherever the loop stands.
+                    let loops: [(&str, &str); 12] = [
+                        ("for_list", "def lp(n):\n    for i in [0] * n:\n        pass\nlp({N})\n"),
+                        ("for_dict", "D = {j: j for j in range({N})}\ndef lp():\n    for k in D:\n        pass\nlp()\n"),
+                        ("for_str_elems", "def lp(n):\n    for c in (\"a\" * n).elems():\n        pass\nlp({N})\n"),
+                        ("for_set", "S = set(range({N}))\ndef lp():\n    for k in S:\n        pass\nlp()\n"),
+                        ("list_compr", "def lp(n):\n    return [j for j in range(n)]\nlp({N})\n"),
+                        ("compr_second_clause", "def lp(n):\n    return [j for i in range(2) for j in range(n)]\nlp({N})\n"),
+                        ("dict_compr", "def lp(n):\n    return {j: 1 for j in range(n)}\nlp({N})\n"),
+                        ("compr_if", "def lp(n):\n    return [j for j in range(n) if j % 2 == 0]\nlp({N})\n"),
+                        ("module_level_for", "for i in range({N}):\n    pass\n"),
+                        ("module_level_compr", "R = [j for j in range({N})]\n"),
+                        ("for_unpack_continue", "def lp(n):\n    for a, b in zip(range(n), range(n)):\n        if a == b:\n            continue\nlp({N})\n"),
+                        ("nested_for_inner", "def lp(n):\n    for i in range(3):\n        for j in range(n):\n            pass\nlp({N})\n"),
+                    ];
+                    let (lname, ltext) = loops[((o.digest >> 8) % loops.len() as u64) as usize];
+                    let fl = |n: u64| run(&[ltext.replace("{N}", &n.to_string())], &none, None).ticks[0];
+                    let (la, lb, lc) = (fl(10), fl(11), fl(12));
+                    o.bump(&format!("probe.loop_kind_{lname}"), 1);
+                    if lb < la || lb - la != lc - lb || lb - la == 0 {
+                        o.violate("loop-iteration-not-counted", &format!("ticks-loop/{lname}"), format!("loop kind {lname}: ticks for bounds 10,11,12: {la},{lb},{lc}"));
+                    }
                     // Every call path must be counted: n more calls cost a constant, non-zero number of ticks.
                     // The loop driving the calls costs (b - a) per iteration, measured above.
                     let per_iter = b - a;
                     let lib = frozen_lib();
                     let lib_loader = kit::MapLoader { modules: [("lib".to_owned(), lib)].into_iter().collect() };
-                    let paths: [(&str, &str, &str); 10] = [
+                    let paths: [(&str, &str, &str); 15] = [
+                        ("star_args", "def g(*a):\n    return a\n", "g(*[i])"),
+                        ("star_kwargs", "def g(**kw):\n    return kw\n", "g(**{\"k\": i})"),
+                        ("default_args", "def g(x, y = [1], *, z = 2):\n    return [x, y, z]\n", "g(i)"),
+                        ("partial", "def g0(x, y):\n    return [x, y]\ng = partial(g0, 1)\n", "g(i)"),
+                        ("tail_call", "def g1(x):\n    return [x]\ndef g(x):\n    return g1(x)\n", "g(i)"),
                         ("frozen_loaded", "load(\"lib\", \"g\")\n", "g(i)"),
                         ("frozen_internal_calls", "load(\"lib\", \"gg\")\n", "gg(3)"),
                         ("frozen_struct_attr", "load(\"lib\", \"SG\")\n", "SG.g(i)"),
